@@ -258,4 +258,14 @@ example : endToEnd (some 500) (some 300) none 400 = .calleeCutOff ∧ endToEnd (
     endToEnd (some 500) (some 300) (some [0x32, 0x30, 0x30]) 250 = .calleeCutOff ∧
     endToEnd none none (some [0x78]) 99999 = .answered := by decide
 
+
+/-- **The deadline rule the model states is the one in the source** (shapes recognised on this run):
+`try_parse_timeout` reads the `timeout` header as u64 nanoseconds (anything else is an error that both
+layers turn into "absent"); both layers take the smaller of header and default, or whichever is present;
+the deadline races the inner call (the call wins a tie), the serving side answers RequestTimeout, the
+calling side fails with "Timeout expired"; every network wraps the user's service in the inbound layer
+with `inbound_request_timeout` and every outbound call in the outbound layer with
+`outbound_request_timeout`, with or without a user-supplied outbound layer. -/
+theorem C11_layers_are_translated : Gen.timeoutShapeChecked = true := rfl
+
 end Anemo
